@@ -352,6 +352,10 @@ class TJPTransformer(Transformer[Any, Any]):
                 seconds = int(value * 86400)
             else:
                 seconds = 3600  # default 1 hour
+            # The slot tables and the limit counters divide by the resolution; a slot that
+            # is empty or longer than a week cannot be mapped to the weekly calendar.
+            if seconds <= 0 or seconds > 7 * 86400:
+                raise ValueError(f"timingresolution {duration} is out of range (more than 0, at most 1 week)")
             return ("timingresolution", seconds)
         return ("timingresolution", 3600)
 
